@@ -721,7 +721,7 @@ impl<P: Proto> Sim<P> {
                 if !self.online(side) {
                     return Ok(false);
                 }
-                let len = (len as usize).min(1390);
+                let len = (len as usize).min(1500);
                 let payload = self.make_payload(side, false, len, 0x11);
                 let r = self.call(side, "send_connless", |c, cb| P::send_connless(c, cb, &payload))?;
                 if r == SendResult::Ok {
